@@ -23,7 +23,9 @@ type limitVerdict struct {
 }
 
 func evalWithLimit(sc *SeqCase, o V5Opts) limitVerdict {
-	lv := limitVerdict{Want: ref.Eval(sc.Doc, sc.Ops, o.Ref())}
+	ro := o.Ref()
+	ro.ScalarBlocksEnsure = true
+	lv := limitVerdict{Want: ref.Eval(sc.Doc, sc.Ops, ro)}
 	var lo, hi int64
 	decided := false
 	for i, cp := range lv.Want.Copies {
